@@ -64,7 +64,26 @@ BACKEND_ARGS = dict(
     on_raise=[], ensures=["not (vectorize and backend == 'fortran')"], unknown_calls="opaque", modifies=[],
 )
 
+# Reserved variable names (C20: "a reserved variable name" raises).  The SPEC is this pinned list — the names the documentation
+# comment of check_vname enumerates on the pinned tree (PyRates-internal slots, sympy constants/singletons, sympy function classes,
+# math-function names) and the reserved name PARTS of generated buffer / index / history variables, anywhere in the name.
+RESERVED_NAMES = ('y', 'dy', 'source_idx', 'target_idx', 'pi', 'I', 'E', 'S', 'Q', 'O', 'N', 'oo', 'zoo', 'nan', 'beta', 'gamma', 'Beta',
+                  'Gamma', 'exp', 'log', 'sin', 'cos', 'tan', 'cot', 'sec', 'csc', 'sinh', 'cosh', 'tanh', 'sqrt', 'abs')
+RESERVED_PARTS = ('_buffer', '_delays', '_maxdelay', '_idx', '_hist')
+_RES = f"v in {RESERVED_NAMES!r} or " + " or ".join(f"{p!r} in v" for p in RESERVED_PARTS)
+FO = "pyrates/frontend/template/operator.py"
+CHECK_VNAME = dict(
+    name="check_vname", prop="C20", target=f"{FO}::check_vname",
+    params={"v": "str", "vtype": "str"},
+    raises={"PyRatesException": _RES},
+    on_raise=[],
+    ensures=[f"not ({_RES})", "result == ('state_var' if v == 't' else vtype)"],
+    loops={0: dict(unroll=True)},        # the loop runs over a literal list: executed iteration by iteration, no invariant
+    modifies=[], returns="str",
+)
+
 CONTRACTS = [
+    CHECK_VNAME,
     VALIDATE,
     validate_for("TorchBackend", FT), validate_for("JaxBackend", FJ), validate_for("FortranBackend", FF),
     BASE_SOLVE,
